@@ -5,7 +5,9 @@ ID = "C09"
 LEAN_PROPS = ["FcpptProofs.Props.C09"]
 HARNESS = {"src": "harness/c09.cpp"}
 TIE = ("hand-written pointer-level model (FcpptModel/Model/C09.lean: address, parent_ link, child list per object) + differential "
-       "correspondence against the real fcppt::container::tree::object<int> under ASan/UBSan/LSan")
+       "correspondence against the real fcppt::container::tree::object, instantiated with int and with a move-only value type, under "
+       "ASan/UBSan/LSan; every mutating line compares values, structure, every parent() link and the identity (address) of every object "
+       "before/after the operation with the model's ids")
 RULE = ("systematic batches: every ordered tree shape with <= 5 nodes (3 value patterns, as a root and hung below another node) under "
         "every observer on every node and every ordered pair of nodes; every mutator on every node / every child position / every "
         "ordered pair of nodes of two small trees (aliasing pairs included: same node, parent/child, siblings), each followed by all "
@@ -13,8 +15,10 @@ RULE = ("systematic batches: every ordered tree shape with <= 5 nodes (3 value p
         "histories of tree operations over a forest of <= 4 heap roots, operands chosen among all current nodes (n-th node in pre-order); "
         "after every mutating line both sides print every node's value, child structure and whether parent() is exactly the owner "
         "(the harness additionally walks every parent chain); observers pre_order/to_root/depth/level/child_position/map/==/!= are "
-        "interleaved. quick: histories up to 25 lines, thorough: up to 40 lines. An evaluation is one operation line; it is non-trivial "
-        "if it is not skipped (skip:*), distinct = distinct (line, model result) pairs.")
+        "interleaved (also front/back, begin/end/rbegin/rend/size/empty, operator<<, sort(Predicate), object(T&&, child_list&&), value "
+        "arguments that alias the container), the object returned by pop/release is dumped before it is moved, and every mutating line "
+        "carries the identity vector (which objects are the same as before). quick: histories up to 25 lines, thorough: up to 40 lines. "
+        "An evaluation is one operation line; it is non-trivial if it is not skipped (skip:*), distinct = distinct (line, model result) pairs.")
 ASSUMPTIONS = [
     "the behaviour of the non-copying members does not depend on the value type: the second instantiation (a move-only value type whose moved-from state keeps its number) is compared with the same model",
     "std::list<object> holds its elements by value with stable addresses: moving/swapping/sorting a list keeps element identity, copying constructs new elements",
@@ -22,7 +26,7 @@ ASSUMPTIONS = [
     "an object's address is a fresh natural number; T = int, a moved-from int keeps its value",
     "misuse creating self-ownership is excluded: moving a node into its own sub-tree, move-assigning from an ancestor, swapping ancestor and descendant",
 ]
-TRUSTED = ["harness/c09.cpp and the line protocol (vh.hpp, Proto.lean)",
+TRUSTED = ["harness/c09.cpp + harness/c09_body.cpp and the line protocol (vh.hpp, Proto.lean)",
            "g++ 12 + ASan/UBSan/LSan as witness for dangling links, double frees and leaks of the real template"]
 
 # (name, weight, arity description)
@@ -411,14 +415,18 @@ MANIFEST = {
                    "parent_ link and by-value child list per object, every member function with the same writes to parent_ as the "
                    "code): the link invariant (every child's parent_ is the address of the object that lists it, roots have none, "
                    "addresses are unique and no link names a dead object) is proved preserved by every operation on every node for "
-                   "all histories; every operation is proved to refine the corresponding operation on plain rose trees; pre_order "
-                   "(explicit stack), to_root/level (pointer chasing), depth, child_position, map and == are proved equal to the "
-                   "recursive reference computations; copies are proved deep (fresh addresses, equal abstraction). The model is tied "
-                   "to the code by a differential correspondence over seeded operation histories under ASan/UBSan/LSan."),
+                   "all histories; a valid, non-misuse operation is proved never to fault (progress); every operation is proved to refine "
+                   "the corresponding operation on plain rose trees; pre_order (explicit stack), to_root/level (pointer chasing), depth, "
+                   "child_position, map and == are proved equal to the recursive reference computations, the traversals also as "
+                   "sequences of objects; sort()/sort(Predicate) is proved to be the unique stable ordered permutation of the same child "
+                   "objects; front/back/iterators/size/empty and operator<< are modelled (the printed characters are proved to determine "
+                   "the tree); copies are proved deep (fresh addresses, equal abstraction). The model is tied to the code by a differential "
+                   "correspondence (systematic batches over all tree shapes <= 5 nodes x all nodes / ordered pairs of nodes x all "
+                   "operations, two-step sequences, seeded histories; int and a move-only value type) under ASan/UBSan/LSan."),
     "level_note": ("Trusted: Lean kernel + propext/Classical.choice/Quot.sound; fidelity of the hand-written model outside the exercised "
                    "histories; harness and line protocol; std::list modelled as a by-value List with stable element identity. "
                    "Self-ownership misuse (move into own sub-tree, move-assign from an ancestor, swap of ancestor and descendant) is "
-                   "excluded by hypothesis and never generated. No sorry/axiom/native_decide."),
-    "technique": "Lean 4 proof over hand-written executable model + differential correspondence on histories (ASan/UBSan harness)",
+                   "excluded by hypothesis and answered skip:misuse. Addresses in the model are never reused. No sorry/axiom/native_decide."),
+    "technique": "Lean 4 proof over hand-written executable model + differential correspondence on systematic batches and histories (ASan/UBSan harness)",
     "design_ref": "DESIGN.md §5 C09, Appendix A.4",
 }
